@@ -150,12 +150,13 @@ Print Assumptions c10_snapshot_stable.
 
 (* what a request reads of a wallet's on-chain deposit while other requests settle it (the
    production balance store: ContractPayment's cache in front of the contract, Deposit.v): in
-   every reachable state of every history of deposits, earnings, withdrawals, minings and
-   restarts a read answers the contract's own pending view — never a settlement that has not been
+   every reachable state of every history of deposits, earnings, withdrawals, minings, restarts
+   and of other accounts crowding the cache (with no bound, or a bound that drops what it cannot
+   store) a read answers the contract's own pending view — never a settlement that has not been
    submitted, never an older value than one that has.  The real store is compared with this
    model in C07's contract cases, and read during a failing submission in `contract-settle-in-flight`. *)
 Theorem c10_deposit_reads_coherent : forall cfg ops v c,
-  dc_refresh_on_settle cfg = true -> 0 <= dc_fee cfg ->
-  Deposit.read (drun cfg d0 ops) = (Some v, c) -> v = eff (drun cfg d0 ops).
+  dc_refresh_on_settle cfg = true -> dc_when_full cfg <> FPKeepOld -> 0 <= dc_fee cfg ->
+  Deposit.read cfg (drun cfg d0 ops) = (Some v, c) -> v = eff (drun cfg d0 ops).
 Proof. exact reads_are_coherent. Qed.
 Print Assumptions c10_deposit_reads_coherent.
